@@ -65,7 +65,9 @@ void harness (void)
       sx_assert (rc == 0 || rc == YAEP_UNACCESSIBLE_NONTERM, "C12: large grammar defined");
       codes3[0] = sparse ? 1000 + (nterm_big - 1) * 20011 % 2000003 : 10 + nterm_big - 1;
       codes3[1] = sparse ? 1000 : 10;
-      codes3[2] = sx_int ("code");
+      /* sparse codes live in a hash table: window + boundary values (see C15); dense codes: all int */
+      if (sparse) { static const int pts[6] = { INT_MIN, -1, 999, 1000, 2000003, INT_MAX }; int pick = sx_choice ("pick", 7); codes3[2] = pick < 6 ? pts[pick] : sx_range ("code", 990, 1100); }
+      else codes3[2] = sx_int ("code");
       p_n = 3; for (i = 0; i < 3; i++) { p_code[i] = codes3[i]; p_attr[i] = i; }
       yaep_set_lookahead_level (g, sx_choice ("la", 3));
       p_rd = 0; p_nerr = 0;
